@@ -141,6 +141,13 @@ pub fn run_case(line: &str) -> String {
     };
     let a: Vec<&str> = t[3..7].to_vec();
     // once into a Vec, once into a writer that takes at most 1..3 bytes per call and has no write_vectored
+    // A write into a writer that FAILS after a few bytes comes first, on the same thread (its error is what the crate's
+    // functions return; the harness's executor unwraps it, hence the catch): a failed write must leave nothing behind
+    // that shows up in the output of later writes.
+    let _ = catch_unwind(AssertUnwindSafe(|| {
+        let mut fw = FailingWriter { left: line.len() % 7 };
+        let _ = emit(&mut fw, f, w, &a);
+    }));
     let res = catch_unwind(AssertUnwindSafe(|| -> Option<(Vec<u8>, Vec<u8>)> {
         let mut out: Vec<u8> = vec![];
         emit(&mut out, f, w, &a)?;
@@ -156,5 +163,24 @@ pub fn run_case(line: &str) -> String {
             let sw = if short == out { String::new() } else { format!(" SW:{}", hex_or_dash(&short)) };
             format!("{} RT:{}{}", hex_or_dash(&out), rt, sw)
         }
+    }
+}
+
+/// accepts `left` bytes, then every write fails with `BrokenPipe`
+struct FailingWriter {
+    left: usize,
+}
+
+impl std::io::Write for FailingWriter {
+    fn write(&mut self, buf: &[u8]) -> std::io::Result<usize> {
+        if self.left == 0 {
+            return Err(std::io::Error::new(std::io::ErrorKind::BrokenPipe, "writer failed"));
+        }
+        let n = buf.len().min(self.left);
+        self.left -= n;
+        Ok(n)
+    }
+    fn flush(&mut self) -> std::io::Result<()> {
+        Ok(())
     }
 }
